@@ -93,7 +93,7 @@ def gen_dt(rng):
 def gen_parse(rng):
     t = rng.choice(R.TEMPLATES)
     op = ["parse", t["name"], gen_dt(rng), None, 0,
-          rng.choice(["module", "module", "p0", "p1"]),
+          rng.choice(["module", "module", "p0", "p1", "info", "pinfo"]),
           rng.choice(["str", "str", "str", "bytes", "stringio"]),
           rng.choice(["explicit", "explicit", "clock"])]
     if t["has_time"] and rng.random() < 0.6:
@@ -141,7 +141,7 @@ def generate(cls, rng):
                for _ in range(rng.choice([2, 2, 3]))]
     for prog in threads:
         for op in prog:
-            op[5] = rng.choice(["module", "module", "p0"])
+            op[5] = rng.choice(["module", "module", "p0", "info"])
     strat = rng.choice([dict(kind="random", p=rng.choice([0.02, 0.1, 1.0])),
                         dict(kind="pb", k=rng.choice([1, 2, 3]),
                              horizon=rng.choice([300, 1500])),
@@ -222,7 +222,8 @@ def build(op, env):
     f = list(f)
     if t["twodigit"]:
         yy = f[0] % 100
-        f[0] = R.pivot_year(yy, env.built_year[via])
+        f[0] = R.pivot_year(yy, env.built_year[via] if via in env.built_year
+                            else env.local_year())
         if f[0] < 1 or f[0] > 9999:
             return None
         f[2] = min(f[2], calendar.monthrange(f[0], f[1])[1])
@@ -250,6 +251,15 @@ def do_parse(env, op, text, flags):
         x = text
     if via == "module":
         return env.parser.parse(x, **kw)
+    if via in ("info", "pinfo"):
+        # the day-first / year-first reading configured on a parserinfo
+        # INSTANCE (built now, under the simulated clock) instead of per call
+        info = env.parser.parserinfo(dayfirst=bool(kw.pop("dayfirst", False)),
+                                     yearfirst=bool(kw.pop("yearfirst",
+                                                           False)))
+        if via == "info":
+            return env.parser.parse(x, parserinfo=info, **kw)
+        return env.parser.parser(info).parse(x, **kw)
     return env.parsers[via].parse(x, **kw)
 
 
